@@ -512,9 +512,11 @@ class SweepMachine:
             if isinstance(value, ast.Call) and norm(value.func) in ('np.transpose',) and value.args and \
                     isinstance(value.args[0], ast.Name) and value.args[0].id in x.temps:
                 x.temps[nm] = x.temps[value.args[0].id]
-            elif nm == 'i' or (isinstance(value, ast.BinOp) and try_affine(value, x.env_affine()) is not None and
-                               nm in ('i', 'j', 'k')):
-                x.env[nm] = try_affine(value, x.env_affine())
+            elif isinstance(value, (ast.BinOp, ast.Name, ast.Constant)) and nm not in x.temps:
+                a_ = try_affine(value, x.env_affine())
+                known = {'L'} | {v_ for v_, _, _ in self.loops}
+                if a_ is not None and a_.syms() <= known and not isinstance(getattr(value, 'value', 0), (str, float, bool)):
+                    x.env[nm] = a_
         # stores of labels
         for t in targets:
             b = pmatch(f'{self.psi}.qD[__k]', t)
